@@ -5,6 +5,7 @@ package main
 import (
 	"fmt"
 	"reflect"
+	"strings"
 
 	"github.com/cosmos/cosmos-proto/internal/verifh/vschema"
 	"github.com/cosmos/cosmos-proto/internal/verifh/vval"
@@ -371,7 +372,7 @@ func (c *libCtx) libCase(v, other *vval.Val, replay string) {
 							dst.Set(fd, protoreflect.ValueOfList(sl))
 							dl := dst.Mutable(fd).List()
 							dl.Append(dl.NewElement())
-							obs = fmt.Sprintf("len src=%d dst=%d;", sl.Len(), dst.Get(fd).List().Len())
+							obs = fmt.Sprintf("srclen=%d|dstlen=%d|", sl.Len(), dst.Get(fd).List().Len())
 							// write element 0 through the retained list; read it through the destination
 							if fd.Message() != nil {
 								e := sl.NewElement()
@@ -406,24 +407,32 @@ func (c *libCtx) libCase(v, other *vval.Val, replay string) {
 								obs += fmt.Sprintf("dst[0]=%v", dst.Get(fd).List().Get(0).Interface())
 							}
 						}); p {
-							obs += ";panic:" + firstLine(pm)
+							obs += "|panic:" + firstLine(pm)
 						}
 						return obs
 					}
 					og := run(func() protoreflect.Message { return t.Info.Proto.ProtoReflect().New() })
 					od := run(func() protoreflect.Message { return dynamicpb.NewMessage(t.Desc) })
-					if t.Info.Slow == nil {
-						continue
+					os := od
+					if t.Info.Slow != nil {
+						os = run(func() protoreflect.Message { return t.Info.Slow(t.Info.Proto.ProtoReflect().New().Interface()) })
 					}
-					os := run(func() protoreflect.Message { return t.Info.Slow(t.Info.Proto.ProtoReflect().New().Interface()) })
 					b.Count("shared_list_cases")
-					if od != os {
-						b.Count("shared_list_references_disagree")
-						continue
-					}
-					if og != od {
-						b.Violate("C08", "shared-list-detached", fmt.Sprintf("list field index %d (%d elements, from NewField: %v) stored with Set while another owner keeps it, then appended to through the destination: generated %s, references %s", j, n, viaNewField, og, od),
-							S.Line()+"\n# shared-list pass type "+t.Full)
+					// observation by observation: whether the SOURCE grows with the destination differs between the two
+					// references (dynamicpb keeps the list object, struct reflection copies the slice header): only what
+					// both of them show is required of the generated code
+					gs, ds, ss := strings.Split(og, "|"), strings.Split(od, "|"), strings.Split(os, "|")
+					for k := range ds {
+						if k >= len(ss) || ds[k] != ss[k] {
+							b.Count("shared_list_observations_references_disagree")
+							continue
+						}
+						b.Count("shared_list_observations_compared")
+						if k >= len(gs) || gs[k] != ds[k] {
+							b.Violate("C08", "shared-list-detached", fmt.Sprintf("list field index %d (%d elements, from NewField: %v) stored with Set while another owner keeps it, then appended to through the destination, then element 0 written through the kept list: generated shows %s, both references %s", j, n, viaNewField, og, od),
+								S.Line()+"\n# shared-list pass type "+t.Full)
+							break
+						}
 					}
 				}
 			}
